@@ -363,3 +363,106 @@ def call_sites(fns, lookup):
                 if t is not None:
                     out.setdefault(id(t), []).append((g, c))
     return out
+
+
+# -------------------------------------------------------------------------------------------------------------------
+# (3) a smart-pointer member that the function itself tests for null and dereferences on the null path
+# -------------------------------------------------------------------------------------------------------------------
+
+def _is_member(n, name):
+    n = strip_casts(n)
+    return n is not None and n.get("k") == "Member" and n.get("n") == name and n.get("b", {}).get("k") == "This"
+
+
+def _null_test(c, name):
+    """condition c tests the member: -> True if `c` holds exactly when the member is non-null, False if exactly when null, None otherwise"""
+    c = strip_casts(c)
+    if c is None:
+        return None
+    if c.get("k") == "Un" and c.get("op") == "!":
+        r = _null_test(c["e"], name)
+        return None if r is None else (not r)
+    if _is_member(c, name):
+        return True
+    if c.get("k") == "MCall" and c.get("n") in ("operator bool", "get") and _is_member(c.get("obj"), name):
+        return True
+    if c.get("k") in ("Bin", "OpCall") and c.get("op") in ("==", "!="):
+        a, b = (c["lhs"], c["rhs"]) if c["k"] == "Bin" else (c["a"] + [None, None])[:2]
+        for x, y in ((a, b), (b, a)):
+            if x is not None and y is not None and _null_test(x, name) is True and strip_casts(y).get("k") == "Null":
+                return c["op"] == "!="
+    return None
+
+
+def null_path_derefs(fn, name):
+    """statements of fn that dereference the smart-pointer member `name` on a path on which fn's own null test of that
+    member has found it null and nothing has (re)established it since.  -> [(line, rendered statement, line of the test)]"""
+    out = []
+
+    def effects(st, states):
+        """straight-line effects of one expression statement on the state set; reports derefs"""
+        derefs, estab = [], None
+        for x in walk(st, prune=lambda y: y.get("k") == "Lambda"):
+            k = x.get("k")
+            if k == "MCall" and x.get("n") == "reset" and _is_member(x.get("obj"), name):
+                estab = "E" if x.get("a") and strip_casts(x["a"][0]).get("k") != "Null" else "N"
+            if k in ("Assign",) and _is_member(x.get("lhs"), name):
+                estab = "N" if strip_casts(x["rhs"]).get("k") == "Null" else "E"
+            if k == "OpCall" and x.get("op") == "=" and x.get("a") and _is_member(x["a"][0], name):
+                estab = "N" if len(x["a"]) > 1 and strip_casts(x["a"][1]).get("k") == "Null" else "E"
+            if k == "OpCall" and x.get("op") in ("*", "->") and x.get("a") and _is_member(x["a"][0], name):
+                derefs.append(x)
+            if k == "Un" and x.get("op") == "*" and _is_member(x.get("e"), name):
+                derefs.append(x)
+            if k == "Member" and x.get("arrow") and _is_member(x.get("b"), name):
+                derefs.append(x)
+        if estab is None:
+            for d in derefs:
+                for s in states:
+                    if s[0] == "N":
+                        out.append((d.get("l"), featlib.render(st)[:160], s[1]))
+            return states
+        # establishment and use in one statement: the order is not modelled -> only the new state is recorded
+        return {(estab, st.get("l"))}
+
+    def run(st, states):
+        """-> states after st (empty set: every path left the function)"""
+        if st is None or not states:
+            return states
+        k = st.get("k")
+        if k == "Block":
+            for s in st.get("s", []):
+                states = run(s, states)
+            return states
+        if k == "If":
+            t = _null_test(st.get("c"), name)
+            if t is None:
+                states = effects(st["c"], states)
+                a = run(st.get("then"), set(states))
+                b = run(st.get("else"), set(states)) if st.get("else") is not None else set(states)
+                return a | b
+            yes = {("E", st.get("l"))} if t else {("N", st.get("l"))}
+            no = {("N", st.get("l"))} if t else {("E", st.get("l"))}
+            # a path that already knows the state keeps it where the test agrees
+            a = run(st.get("then"), yes)
+            b = run(st.get("else"), no) if st.get("else") is not None else no
+            return a | b
+        if k in ("Return", "Throw"):
+            effects(st, states)
+            return set()
+        if k in ("For", "While", "Do", "ForRange"):
+            for part in ("init", "c", "range"):
+                if st.get(part) is not None:
+                    states = effects(st[part], states)
+            after = run(st.get("body"), set(states))
+            return states | after
+        if k in ("Switch",):
+            return states | run(st.get("body"), set(states))
+        if k in ("Case", "Default", "Attributed", "OMP"):
+            return run(st.get("s") if st.get("s") is not None else st.get("body"), states)
+        if featlib.is_call(st) and st.get("noreturn"):
+            return set()
+        return effects(st, states)
+
+    run(fn.body, {("U", None)})
+    return out
